@@ -150,10 +150,12 @@ func bigMinMax(c *Check) {
 }
 
 func checkC17(c *Check) {
-	c.rule = "MC_Builtins: min/max over all ordered pairs and between over (quick: a third of) all triples of 17 numbers (negative, multi-digit, mixed int/float, equal values of different type); min / max / between / <= over all ordered pairs of 13 integers up to 2^63-1 in magnitude (oracle: math/big); split and join(split(s,d),d) over 12 strings x 7 separators (empty, multi-byte, multi-character) (thorough: also every string of length 0-4 over a, comma and space); sort/reverse over 11 arrays (mixed types, numbers whose numeric and printed orders differ, case variants) with no flag / true / false and the input re-read; join of each array; len lower upper trim string int float type keys over the 50 corpus values and 12 strings; int float string len over 15 numeric spellings with leading zeros, base prefixes and separators; 25 built-ins with 0..4 arguments of every type (wrong counts and types; thorough: every 4-tuple of the 8 types); hour minute seconds day month year weekday for 26 instants (thorough: plus 1200 instants sweeping 1936-2037) in UTC from a civil-calendar computation in the specification, and for 5 zones (incl. DST and a 30-minute offset) against the host time library, the zone being changed between calls inside one process; TLC checks the laws min/max vs <, between vs <=, join(split)=s, sort is an ordered permutation, wrong counts never fail; distinct = distinct script"
+	c.rule = "MC_Builtins: min/max over all ordered pairs and between over (quick: a third of) all triples of 17 numbers (negative, multi-digit, mixed int/float, equal values of different type); min / max / between / <= over all ordered pairs of 13 integers up to 2^63-1 in magnitude (oracle: math/big); split and join(split(s,d),d) over 12 strings x 7 separators (empty, multi-byte, multi-character) (thorough: also every string of length 0-4 over a, comma and space); sort/reverse over 11 arrays (mixed types, numbers whose numeric and printed orders differ, case variants) with no flag / true / false and the input re-read; join of each array; len lower upper trim string int float type keys over the 50 corpus values and 12 strings; int float string len over 15 numeric spellings with leading zeros, base prefixes and separators; match(subject, pattern) over the subjects and patterns of MC_Match (blanks, line breaks, anchors: either of two definitions, one of them everywhere); 25 built-ins with 0..4 arguments of every type (wrong counts and types; thorough: every 4-tuple of the 8 types); hour minute seconds day month year weekday for 26 instants (thorough: plus 1200 instants sweeping 1936-2037) in UTC from a civil-calendar computation in the specification, and for 5 zones (incl. DST and a 30-minute offset) against the host time library, the zone being changed between calls inside one process; TLC checks the laws min/max vs <, between vs <=, join(split)=s, sort is an ordered permutation, wrong counts never fail; distinct = distinct script"
 	c.assumptions = []string{"sort may order by printed form or numerically when all elements are numbers", "printf/sprintf formatting, getenv, now are not constrained", "time-zone database of the host"}
 	_ = os.Unsetenv("TZ")
 	bigMinMax(c)
+	// match() on subjects with blanks and line breaks: either definition of the test, but one of them everywhere
+	runMatchRowsAs(c, true)
 	runRows(c, "MC_Builtins", stdCfg(c.Tier, "LawsMinMax", "LawsBetween", "LawsJoinSplit", "LawsSort", "NoFailure"), func(row *Row) {
 		if row.K == "sort" {
 			replayProgRow(c, row, progOpts{})
